@@ -518,7 +518,18 @@ fn families_of(prop: &str, tier: Tier) -> Vec<Cfg> {
             f.max_conns = if q { 3 } else { 4 };
             f.max_reqs = 2;
             f.dev = 0;
-            vec![a, b, c, d, e, f]
+            // acknowledgements for an identifier the client does not (or no longer) know - successful or refusing - on
+            // first and resumed connections: no PUBREL, nothing replayed for them
+            let mut st = Cfg::base("C03-stale-acknowledgements-also-after-a-resume");
+            st.props = vec!["C03"];
+            st.ops = vec![OpK::Pub2, OpK::Poll, OpK::DropConn];
+            st.io = IoMenu::benign();
+            st.broker.stale_acks = true;
+            st.max_ops = if q { 6 } else { 7 };
+            st.max_conns = if q { 2 } else { 3 };
+            st.max_reqs = 2;
+            st.dev = if q { 1 } else { 2 };
+            vec![a, b, c, d, e, f, st]
         }
         "C04" => {
             let mut a = Cfg::base("C04-inbound-qos012-interleaved");
@@ -614,7 +625,22 @@ fn families_of(prop: &str, tier: Tier) -> Vec<Cfg> {
             e.max_conns = 2;
             e.max_reqs = 0;
             e.dev = if q { 1 } else { 2 };
-            vec![a, b, c, d, e]
+            // keep-alive deadlines falling due in the very wake-up in which an inbound publish has been read completely,
+            // with transport faults on whatever the client writes next
+            let mut k = Cfg::base("C04-inbound-publish-racing-a-keep-alive-deadline");
+            k.props = vec!["C04"];
+            k.keepalive = 10;
+            k.ops = vec![OpK::Poll, OpK::Recv, OpK::Sleep];
+            k.sleeps = vec![5_000];
+            k.io = IoMenu::faults_only();
+            k.broker.script = vec![inpub(0, 0), inpub(1, 5), inpub(2, 6)];
+            k.broker.mute_pingresp = true;
+            k.max_ops = if q { 5 } else { 6 };
+            k.max_conns = 2;
+            k.max_reqs = 0;
+            k.late_timer_ms = 1;
+            k.dev = 2;
+            vec![a, b, c, d, e, k]
         }
         "C05" => {
             let mut a = Cfg::base("C05-handshake-variants");
